@@ -48,6 +48,22 @@ Theorem tree_iteration : forall f xs, iterates f (ITree xs) xs /\ it_len repaire
 Proof. exact IterProofs.tree_summary. Qed.
 Print Assumptions tree_iteration.
 
+(* Tuple of DISTINCT objects (cursor = the element pointer; NoDup excludes open finding F3, see 8.) *)
+Theorem tuple_iteration : forall f (items : list (nat * val)), NoDup (map fst items) ->
+  iterates f (ITuple items) (map snd items) /\ lg (ITuple items) (map snd items).
+Proof. exact IterProofs.tuple_summary. Qed.
+Print Assumptions tuple_iteration.
+Example tuple_iteration_nonvacuous : NoDup (map fst [(0%nat, VInt 5); (1%nat, VInt 5); (2%nat, VInt 7)]).
+Proof. repeat constructor; cbn; intuition discriminate. Qed.
+(* Table: the slot scan of Table_Iter_Init/Next/Last/Prev over ANY slot occupancy (fuel nslots+1 is
+   adequate): the keys of the occupied slots in slot order, backward = reverse, len = their number *)
+Theorem table_iteration : forall f slots,
+  iterates f (ITable slots) (map snd (tab_chain_from 0 slots)) /\
+  it_len repaired (ITable slots) = OVal (zlen (tab_chain_from 0 slots)) /\
+  (forall k, In k (map snd (tab_chain_from 0 slots)) <-> In (Some k) slots).
+Proof. exact IterProofs.table_summary. Qed.
+Print Assumptions table_iteration.
+
 (* 5. Range, for ALL start/stop/step of either sign with step <> 0 and |.| < 2^62 (in_box; inside
       that box no int64 operation of the code wraps, which is part of the proof): the walk yields
       range_elems r = [range_val r 0; ..; range_val r (count-1)] where range_val r i = start + step*i
@@ -166,6 +182,23 @@ Proof.
   - constructor; [reflexivity|]. constructor; [reflexivity|]. constructor.
   - reflexivity.
 Qed.
+
+(*    Zip len = length of the shortest input, get i = the tuple of the inputs' get i *)
+Theorem zip_len_get : forall us vss, us <> [] -> Forall2 lg us vss -> lg (IZip us) (zip_rows vss).
+Proof. exact IterProofs.lg_zip. Qed.
+Print Assumptions zip_len_get.
+Example zip_len_get_nonvacuous :
+  Forall2 lg [IArray (vi [1; 2; 3]); IList (vi [7; 8])] [vi [1; 2; 3]; vi [7; 8]] /\
+  zip_rows [vi [1; 2; 3]; vi [7; 8]] = [VTup (vi [1; 7]); VTup (vi [2; 8])].
+Proof.
+  split; [|reflexivity]. constructor; [apply IterProofs.lg_array|]. constructor; [apply IterProofs.lg_list|]. constructor.
+Qed.
+
+(*    reverse(I) = slice(I, _, _, -1) yields the items of I in reverse order *)
+Theorem reverse_view : forall f u cvs, wb f u cvs -> it_len repaired u = OVal (zlen cvs) -> zlen cvs < box ->
+  exists s, mk_reverse repaired u = OVal s /\ iterates f s (rev (map snd cvs)).
+Proof. exact IterProofs.reverse_summary. Qed.
+Print Assumptions reverse_view.
 
 (*    Composition to depth 3 over an arbitrary well-behaved u (itself possibly a view). *)
 Theorem nested_views_compose : forall f u cvs r g p,
